@@ -14,6 +14,8 @@ struct Exchange {
     /// arrival points inside [lo, hi) are moved to hi: a 3xx head cut after its complete Location line is
     /// accepted early by the partial-redirect fallback (owned by C05)
     forbid: Option<(usize, usize)>,
+    /// the response body is close-delimited: the caller reads until the connection has ended
+    close: bool,
 }
 
 fn gen_exchange(r: &mut Rng) -> Exchange {
@@ -40,8 +42,10 @@ fn gen_exchange(r: &mut Rng) -> Exchange {
     let mut head = format!("{} {} Reason\r\nX-One: 1\r\n", rv, status).into_bytes();
     if r.chance(1, 5) { head.extend_from_slice(b"Connection: close\r\n"); }
     let body: Vec<u8> = (0..r.range(0, 120)).map(|_| *r.pick(b"ab\r\n0;xHTTP/1. ")).collect();
-    let no_body = method == "HEAD" || matches!(status, 204 | 304);
-    let framing = r.below(3);
+    // 0/2: Content-Length, 1: chunked (HTTP/1.1), 3: no framing at all = close-delimited (then nothing follows)
+    let framing = r.below(4);
+    // a redirect without any framing field has no body (body.rs: is_redirect && !has_body_header)
+    let no_body = method == "HEAD" || matches!(status, 204 | 304) || (framing == 3 && (300..400).contains(&status));
     let mut coded = Vec::new();
     match framing {
         0 => { head.extend_from_slice(format!("Content-Length: {}\r\n", body.len()).as_bytes()); coded.extend_from_slice(&body); }
@@ -53,8 +57,10 @@ fn gen_exchange(r: &mut Rng) -> Exchange {
             if r.chance(1, 3) { coded.extend_from_slice(b"Trailer: x\r\n"); }
             coded.extend_from_slice(b"\r\n");
         }
+        3 => { coded.extend_from_slice(&body); }
         _ => { head.extend_from_slice(format!("Content-Length: {}\r\n", body.len()).as_bytes()); coded.extend_from_slice(&body); }
     }
+    let close_delimited = framing == 3 && !no_body;
     let mut forbid = None;
     // a Location field on a response that is not a redirect (201 Created, ...): an ordinary field
     if !(300..400).contains(&status) && r.chance(1, 3) { head.extend_from_slice(b"Location: /created/7\r\n"); }
@@ -67,8 +73,8 @@ fn gen_exchange(r: &mut Rng) -> Exchange {
     stream.extend_from_slice(&head);
     if !no_body { stream.extend_from_slice(&coded); }
     let msglen = stream.len();
-    stream.extend_from_slice(NEXT);
-    Exchange { req, payload, stream, msglen, forbid }
+    if !close_delimited { stream.extend_from_slice(NEXT); }
+    Exchange { req, payload, stream, msglen, forbid, close: close_delimited }
 }
 
 fn adjust(ex: &Exchange, p: usize) -> usize {
@@ -137,7 +143,7 @@ fn run_schedule(cx: &mut Ctx, ex: &Exchange, r: &mut Rng, mode: usize) {
             "recvBody" => {
                 if r.chance(1, 6) { cx.op("boundary"); }
                 if r.chance(1, 8) { cx.op("mode"); }
-                if cx.op("canproceed") == "bool true" && arrived >= ex.msglen { cx.op("proceed"); continue; }
+                if cx.op("canproceed") == "bool true" && arrived >= ex.msglen && (!ex.close || soff >= ex.msglen) { cx.op("proceed"); continue; }
                 let cap = cap_of(r);
                 let res = cx.op(&format!("bread {} {}", hx(&ex.stream[soff..arrived.max(soff)]), cap));
                 let p: Vec<&str> = res.split(' ').collect();
